@@ -164,7 +164,7 @@ theorem appendRealloc_contents (b : SBuf) (n ta : Nat) (h : Inv b) (hta : n ≤ 
   · simp [appendRealloc, zeros_length]
   · simp [appendRealloc, zeros_length, hcl]; omega
 
-theorem inv_append (b : SBuf) (n : Nat) (h : Inv b) : Inv (append b n).1 := by
+theorem inv_append' (b : SBuf) (n : Nat) (h : Inv b) : Inv (append b n).1 := by
   rw [append_eq]
   by_cases hs : cap b - b.len < n
   · simp only [hs, if_true]
@@ -196,7 +196,7 @@ theorem append_contents_take (b : SBuf) (n : Nat) (h : Inv b) :
 
 theorem append_contents_length (b : SBuf) (n : Nat) (h : Inv b) :
     (contents (append b n).1).length = (contents b).length + n := by
-  rw [contents_length _ (inv_append b n h), contents_length b h, append_eq]
+  rw [contents_length _ (inv_append' b n h), contents_length b h, append_eq]
   obtain ⟨h1, h2, h3⟩ := h
   by_cases hs : cap b - b.len < n
   · simp only [hs, if_true]
@@ -224,7 +224,7 @@ theorem fill_mem_length (b : SBuf) (w : Win) (vs : List UInt8)
   · exact splice_length _ _ _ hw
   · rfl
 
-theorem inv_fill (b : SBuf) (w : Win) (vs : List UInt8) (h : Inv b)
+theorem inv_fill' (b : SBuf) (w : Win) (vs : List UInt8) (h : Inv b)
     (hw : w.off + vs.length ≤ b.mem.length) : Inv (fill b w vs) := by
   obtain ⟨e1, e2, _, _, e5, e6⟩ := fill_fields b w vs
   unfold Inv
@@ -253,7 +253,7 @@ theorem fill_contents (b : SBuf) (w : Win) (vs : List UInt8) (h : Inv b)
 
 /-! ## invariant preservation, windows -/
 
-theorem inv_new (p a : Nat) : Inv (new p a) := by
+theorem inv_new' (p a : Nat) : Inv (new p a) := by
   simp [Inv, new, zeros]
 
 theorem prependRealloc_mem_length (b : SBuf) (n tp : Nat) (h : Inv b) :
@@ -262,7 +262,7 @@ theorem prependRealloc_mem_length (b : SBuf) (n tp : Nat) (h : Inv b) :
   obtain ⟨h1, h2, h3⟩ := h
   simp [prependRealloc, zeros_length, hcl, cap]; omega
 
-theorem inv_prepend (b : SBuf) (n : Nat) (h : Inv b) : Inv (prepend b n).1 := by
+theorem inv_prepend' (b : SBuf) (n : Nat) (h : Inv b) : Inv (prepend b n).1 := by
   rw [prepend_eq]
   by_cases hs : b.start < n
   · simp only [hs, if_true]
@@ -278,14 +278,14 @@ theorem inv_prepend (b : SBuf) (n : Nat) (h : Inv b) : Inv (prepend b n).1 := by
     simp only [hs, if_false]
     simp only [Inv] at ⊢; omega
 
-theorem inv_clear (b : SBuf) (h : Inv b) : Inv (clear b) := by
+theorem inv_clear' (b : SBuf) (h : Inv b) : Inv (clear b) := by
   obtain ⟨h1, h2, h3⟩ := h
   simp only [Inv, clear]; omega
 
 theorem contents_clear (b : SBuf) : contents (clear b) = [] := by
   simp [contents, clear]
 
-theorem inv_pushLayer (b : SBuf) (t : Int) (h : Inv b) : Inv (pushLayer b t) := h
+theorem inv_pushLayer' (b : SBuf) (t : Int) (h : Inv b) : Inv (pushLayer b t) := h
 
 theorem contents_pushLayer (b : SBuf) (t : Int) : contents (pushLayer b t) = contents b := rfl
 
@@ -299,7 +299,7 @@ theorem append_win (b : SBuf) (n : Nat) :
 
 theorem prepend_start_len (b : SBuf) (n : Nat) (h : Inv b) :
     (prepend b n).1.start + n ≤ (prepend b n).1.len := by
-  have hi := inv_prepend b n h
+  have hi := inv_prepend' b n h
   have h1 := prepend_contents_length b n h
   rw [contents_length _ hi] at h1
   obtain ⟨i1, _, _⟩ := hi
@@ -323,7 +323,7 @@ theorem step_append (b : SBuf) (vs : List UInt8) :
 
 theorem contents_step_prepend (b : SBuf) (vs : List UInt8) (h : Inv b) :
     contents (step b (.prepend vs)) = vs ++ contents b := by
-  rw [step_prepend, fill_contents _ _ _ (inv_prepend b _ h) rfl (Nat.le_refl _)
+  rw [step_prepend, fill_contents _ _ _ (inv_prepend' b _ h) rfl (Nat.le_refl _)
     (prepend_start_len b _ h)]
   simp only [prepend_win, Nat.sub_self, List.take_zero, Nat.zero_add, List.nil_append]
   rw [prepend_contents_drop b _ h]
@@ -335,27 +335,27 @@ theorem contents_step_append (b : SBuf) (vs : List UInt8) (h : Inv b) :
   have hl := append_contents_length b vs.length h
   have hi := h
   obtain ⟨i1, i2, i3⟩ := hi
-  rw [step_append, fill_contents _ _ _ (inv_append b _ h) rfl
+  rw [step_append, fill_contents _ _ _ (inv_append' b _ h) rfl
     (by rw [f1]; exact i1) (by rw [f2]; exact Nat.le_refl _)]
   simp only [append_win, f1]
   rw [← hcl, append_contents_take b _ h, List.drop_of_length_le (by omega), List.append_nil]
 
-theorem inv_step (b : SBuf) (op : Op) (h : Inv b) : Inv (step b op) := by
+theorem inv_step' (b : SBuf) (op : Op) (h : Inv b) : Inv (step b op) := by
   cases op with
   | prepend vs =>
     rw [step_prepend]
-    apply inv_fill _ _ _ (inv_prepend b _ h)
+    apply inv_fill' _ _ _ (inv_prepend' b _ h)
     have := prepend_start_len b vs.length h
-    have := (inv_prepend b vs.length h).2.1
+    have := (inv_prepend' b vs.length h).2.1
     simp only [prepend_win]; omega
   | append vs =>
     rw [step_append]
-    apply inv_fill _ _ _ (inv_append b _ h)
+    apply inv_fill' _ _ _ (inv_append' b _ h)
     have := (append_fields b vs.length).2.1
-    have := (inv_append b vs.length h).2.1
+    have := (inv_append' b vs.length h).2.1
     simp only [append_win]; omega
-  | clear => exact inv_clear b h
-  | push t => exact inv_pushLayer b t h
+  | clear => exact inv_clear' b h
+  | push t => exact inv_pushLayer' b t h
 
 theorem layers_step (b : SBuf) (op : Op) :
     (step b op).layers = (specStep (contents b, b.layers) op).2 := by
@@ -376,7 +376,7 @@ theorem contents_step (b : SBuf) (op : Op) (h : Inv b) :
 theorem inv_run_from (b : SBuf) (ops : List Op) (h : Inv b) : Inv (run b ops) := by
   induction ops generalizing b with
   | nil => exact h
-  | cons op ops ih => exact ih (step b op) (inv_step b op h)
+  | cons op ops ih => exact ih (step b op) (inv_step' b op h)
 
 /-- Refinement from an arbitrary invariant state. -/
 theorem refines_from (b : SBuf) (ops : List Op) (h : Inv b) :
@@ -385,6 +385,105 @@ theorem refines_from (b : SBuf) (ops : List Op) (h : Inv b) :
   | nil => rfl
   | cons op ops ih =>
     simp only [run, List.foldl_cons] at ih ⊢
-    rw [ih (step b op) (inv_step b op h), contents_step b op h, layers_step b op]
+    rw [ih (step b op) (inv_step' b op h), contents_step b op h, layers_step b op]
+
+/-! ## write -/
+
+theorem write_current (b : SBuf) (w : Win) (i : Nat) (v : UInt8)
+    (hg : w.gen = b.gen) (hi : i < w.n) :
+    write b w i v = .ok { b with mem := b.mem.set (w.off + i) v } := by
+  simp [write, hg, hi]
+
+theorem contents_set (b : SBuf) (k : Nat) (v : UInt8) (hk : b.start ≤ k) :
+    contents { b with mem := b.mem.set k v } = (contents b).set (k - b.start) v := by
+  simp only [contents]
+  rw [List.drop_set, if_neg (by omega), List.take_set]
+
+theorem inv_set (b : SBuf) (k : Nat) (v : UInt8) (h : Inv b) :
+    Inv { b with mem := b.mem.set k v } := by
+  simpa [Inv] using h
+
+/-! ## serializeLayers -/
+
+/-- Abstract run of the SerializeLayers loop on (contents, layers), innermost-first. -/
+def goSpec (c : List UInt8) (ts : List Int) : List Ser → Option (List UInt8 × List Int)
+  | [] => some (c, ts)
+  | l :: rest => if l.ok c then goSpec (l.hdr c ++ c) (ts ++ [l.typ]) rest else none
+
+theorem go_refines (b : SBuf) (ls : List Ser) (h : Inv b) :
+    match goSpec (contents b) b.layers ls with
+    | some (c, ts) => ∃ b', serializeLayers.go b ls = .ok b' ∧ Inv b' ∧
+        contents b' = c ∧ b'.layers = ts
+    | none => serializeLayers.go b ls = .err "serialize" := by
+  induction ls generalizing b with
+  | nil => exact ⟨b, rfl, h, rfl, rfl⟩
+  | cons l rest ih =>
+    simp only [goSpec, serializeLayers.go]
+    by_cases hok : l.ok (contents b) = true
+    · simp only [hok, if_true]
+      have hi1 := inv_step' b (.prepend (l.hdr (contents b))) h
+      have hi2 := inv_step' _ (.push l.typ) hi1
+      have e1 : contents (step (step b (.prepend (l.hdr (contents b)))) (.push l.typ))
+          = l.hdr (contents b) ++ contents b := by
+        rw [contents_step _ _ hi1, contents_step _ _ h]; rfl
+      have e2 : (step (step b (.prepend (l.hdr (contents b)))) (.push l.typ)).layers
+          = b.layers ++ [l.typ] := by
+        rw [layers_step, layers_step]; rfl
+      have := ih _ hi2
+      rw [e1, e2] at this
+      exact this
+    · simp [hok]
+
+theorem goSpec_snoc (c : List UInt8) (ts : List Int) (xs : List Ser) (l : Ser) :
+    goSpec c ts (xs ++ [l]) =
+      (goSpec c ts xs).bind (fun r =>
+        if l.ok r.1 then some (l.hdr r.1 ++ r.1, r.2 ++ [l.typ]) else none) := by
+  induction xs generalizing c ts with
+  | nil => simp [goSpec]
+  | cons x xs ih =>
+    simp only [List.cons_append, goSpec]
+    split
+    · exact ih _ _
+    · rfl
+
+theorem goSpec_reverse (ls : List Ser) :
+    (AllOk ls → goSpec [] [] ls.reverse = some (encode ls, (ls.map (·.typ)).reverse)) ∧
+    (¬ AllOk ls → goSpec [] [] ls.reverse = none) := by
+  induction ls with
+  | nil => simp [goSpec, AllOk, encode]
+  | cons l rest ih =>
+    rw [List.reverse_cons, goSpec_snoc]
+    by_cases hr : AllOk rest
+    · rw [ih.1 hr]
+      by_cases hl : l.ok (encode rest) = true
+      · simp [AllOk, hl, hr, encode]
+      · simp [AllOk, hl]
+    · rw [ih.2 hr]
+      simp [AllOk, hr]
+
+theorem gen_le_step (b : SBuf) (op : Op) : b.gen ≤ (step b op).gen := by
+  cases op with
+  | prepend vs =>
+    rw [step_prepend, (fill_fields _ _ _).2.2.2.1, prepend_eq]
+    split
+    · exact Nat.le_succ _
+    · exact Nat.le_refl _
+  | append vs =>
+    rw [step_append, (fill_fields _ _ _).2.2.2.1, append_eq]
+    split
+    · exact Nat.le_succ _
+    · exact Nat.le_refl _
+  | clear => exact Nat.le_refl _
+  | push t => exact Nat.le_refl _
+
+theorem go_no_panic (b : SBuf) (ls : List Ser) (k : PanicKind) :
+    serializeLayers.go b ls ≠ .panic k := by
+  induction ls generalizing b with
+  | nil => simp [serializeLayers.go]
+  | cons l rest ih =>
+    simp only [serializeLayers.go]
+    split
+    · exact ih _
+    · simp
 
 end Gp.C18
